@@ -47,7 +47,9 @@ def main():
             meta = dict(id=sid, property=d, ran=[])
             sh('git checkout -- . && git clean -fdq', cwd=WT)
             shutil.copy(demo, os.path.join(WT, 'sv-parser/examples/seeddemo.rs'))
-            rc0, o0 = sh('cargo run --offline -q -p sv-parser --example seeddemo', cwd=WT)
+            # a demonstration that drives the memo-capacity hook needs the hook's cfg flag (the suite is run WITHOUT it)
+            denv = dict(RUSTFLAGS='--cfg sv_parser_verif', CARGO_TARGET_DIR=TGT + '-hook') if 'set_memo_capacity' in open(demo).read() else None
+            rc0, o0 = sh('cargo run --offline -q -p sv-parser --example seeddemo', cwd=WT, env=denv)
             meta['demo_unchanged_exit'] = rc0
             meta['ran'].append('unchanged tree: cargo run --offline -p sv-parser --example <demo> -> exit %d' % rc0)
             rc, o = sh('git apply %s' % patch, cwd=WT)
@@ -60,7 +62,7 @@ def main():
             failed = sum(int(x) for x in re.findall(r'test result: \w+\. \d+ passed; (\d+) failed', ot))
             meta['suite'] = dict(exit=rct, passed=passed, failed=failed)
             meta['ran'].append('changed tree: cargo test --workspace --no-fail-fast --offline -> %d passed, %d failed' % (passed, failed))
-            rc1, o1 = sh('cargo run --offline -q -p sv-parser --example seeddemo', cwd=WT)
+            rc1, o1 = sh('cargo run --offline -q -p sv-parser --example seeddemo', cwd=WT, env=denv)
             meta['demo_changed_exit'] = rc1
             meta['demo_changed_tail'] = o1.strip().split('\n')[-1][:300]
             meta['ran'].append('changed tree: cargo run --offline -p sv-parser --example <demo> -> exit %d' % rc1)
@@ -91,6 +93,7 @@ def main():
     finally:
         sh('git -C /repo worktree remove --force %s' % WT)
         shutil.rmtree(TGT, ignore_errors=True)
+        shutil.rmtree(TGT + '-hook', ignore_errors=True)
         shutil.rmtree(OUT, ignore_errors=True)
     json.dump(summary, open(os.path.join(DEST, 'seeded', 'validation_summary.json' if ROUND == 1 else 'validation_summary%d%s.json' % (ROUND, TAG)), 'w'), indent=1)
 
